@@ -12,6 +12,7 @@ import (
 	"github.com/mdzio/go-logging"
 	"verif/harness/core"
 	_ "verif/harness/ackq"
+	_ "verif/harness/broker"
 	_ "verif/harness/codec"
 	_ "verif/harness/topicstore"
 	"verif/harness/ring"
